@@ -86,6 +86,22 @@ NAMES = ['a', 'b', 'c', 'f', 'g', 'x', 'y', 'k2', '_t', 'имя', '%user name%',
          'index', 'int', 'in_stock', 'notx', 'order', 'android', 'iffy', 'elsewhere', 'delta', 'Trueish', 'None_', 'forx', 'r', 'rr',
          # names that Unicode normalisation (NFC / NFKC) would rewrite, and a %...% name holding a form feed
          '\u2126m', '\u212bx', '\uff58', '\u00b5', 'x\u00b2' if False else '\ufb01t', '%a\x0cb%']
+# the function table of the pinned tree; a tree under test whose table has further entries gets their names into the identifier pool (a builtin that the grammar
+# or the evaluator special-cases by name is only met by programs that spell that name)
+PINNED_TABLE = frozenset(['__delitem__', '__getitem__', '__setitem__', '__setitem_with_op__', 'abs', 'ceil', 'dict', 'endswith', 'enumerate', 'filter', 'float', 'floor', 'get', 'index_of',
+                          'insert', 'int', 'items', 'join', 'keys', 'len', 'list', 'lower', 'map', 'match', 'match_all', 'match_groups', 'max', 'min', 'pop', 'pretty', 'push', 'rand', 'reduce',
+                          'remove', 'replace', 'reversed', 'round', 'shuffle', 'sorted', 'split', 'startswith', 'str', 'strip', 'sum', 'upper', 'values'])
+
+
+def use_table_names(table_names):
+    """called by the checks' setup with the names of the function table of the tree under test: names the pinned table does not have join NAMES (three times
+    each, so that they are drawn about as often as the rest of the pool together with them grows); -> the new names"""
+    new = sorted(n for n in table_names if n not in PINNED_TABLE and n not in NAMES)
+    for n in new:
+        NAMES.extend([n, n, n])
+    return new
+
+
 NUMBERS = ['1', '2.5', '0', '007', '10.50', '3', '12345678901234567890123456789.5']
 STRINGS = ['"s"', "'q'", 'r"\\d+"', '"a\\"b"', '""', "'x y'", '"%z%"', '"# no comment"', '"#fff"', '"#000"', "'n#1'", "'n#2'",
            # literals spelled like keyword constants / numbers, and literals holding the characters str.splitlines() treats as line boundaries
